@@ -8,12 +8,16 @@
    every colour and every table; the float comparison follows the exact order on all of
    [-255,255]^3 x [-255,255]^3; the two models return the same entry unless the exact minimum is
    attained by two entries (and then they can differ: C07_float_int_can_differ).
+   Capabilities from DECRPM replies: what every reply value establishes (model/CapReplies.v) and
+   that the model of handleSequence + New's loop (model/Input.v) reports exactly that, for all
+   lists of reports.
    Still assumed (trusted base): the Go compiler evaluates the expression in binary64 without
    fusing multiply and add (true on amd64 with GOAMD64=v1; the differential run compares bit
    patterns of the same expression compiled by the same toolchain). *)
 From Coq Require Import Floats.SpecFloat.
 From Vx Require Import base.Prelude gen.GenPalette model.Colour model.ColourFloat model.RenderTypes model.Render model.Gate
-  proofs.ColourProofs proofs.ColourFloatProofs proofs.ColourFloatFlocq proofs.GateProofs.
+  model.CapReplies proofs.ColourProofs proofs.ColourFloatProofs proofs.ColourFloatFlocq proofs.GateProofs.
+From Vx Require model.Input proofs.CapRepliesProofs.
 
 (* Without RGB support a colour is sent as Color.asIndex of it.  For every 32-bit colour
    value c: a non-RGB colour is unchanged; an RGB colour becomes a palette index n with
@@ -122,6 +126,32 @@ Theorem C07_palette_is_translated : colorIndex3 = map split3 colorIndex /\ zlen 
 Proof. exact (conj colorIndex3_spec eq_refl). Qed.
 Print Assumptions C07_palette_is_translated.
 
+(* ---- capabilities established by DECRPM replies, for every reply value ---- *)
+
+(* What a reply CSI ? Pd ; Ps $ y to a DECRQM query establishes: the mode is advertised exactly
+   for Ps = 1 (set) and 2 (reset), and for 3 (permanently set) in the case of mode 2027 only;
+   0 (not recognised), 4 (permanently reset), any other value, a missing or empty value and no
+   reply establish nothing (model/CapReplies.v rpm_advertises). *)
+Theorem C07_decrpm_value_meaning : forall m v,
+  rpm_advertises m (RpmVal v) = true <-> (v = 1 \/ v = 2 \/ (m = 2027 /\ v = 3)).
+Proof. exact CapRepliesProofs.decrpm_value_meaning. Qed.
+Print Assumptions C07_decrpm_value_meaning.
+
+(* For EVERY list of DECRPM reports a terminal sends before its DA1 reply - any modes (asked for
+   or not), any values, reports without or with an empty value, several reports for one mode,
+   any order - the capabilities that handleSequence + the start-up loop of New (the model of
+   model/Input.v, tied to the code by C03 and by the rpm stream here) have collected when the
+   loop ends are exactly the advertised ones: synchronized output iff some report advertises
+   2026, Unicode core iff 2027, colour-scheme reports iff 2031, and no other capability. *)
+Theorem C07_decrpm_reported_exactly_advertised : forall rs : list (Z * rpm),
+  exists cp, reported_caps rs = Some cp /\
+    Input.c_sync cp = mode_advertised 2026 rs /\
+    Input.c_unicode cp = mode_advertised 2027 rs /\
+    Input.c_theme cp = mode_advertised 2031 rs /\
+    forall c, Input.caps_get cp c = cap_spec rs c.
+Proof. exact CapRepliesProofs.decrpm_reported_exactly_advertised. Qed.
+Print Assumptions C07_decrpm_reported_exactly_advertised.
+
 (* Vocabulary gating.  For EVERY renderer state, every list of drawing calls and every kind of
    frame end, every token the renderer writes is in the vocabulary the advertised capability
    set allows: direct colour only with RGB (otherwise at most one parameter: a palette index),
@@ -159,6 +189,13 @@ Example C07_float_example :
   bits64 c30 = 4599075939470750515 /\ bits64 c59 = 4603489467105573601 /\ bits64 c11 = 4592590756007337001 /\
   bits64 (fdist 255 255 255) = 4673776059897578782.
 Proof. vm_compute. repeat split; discriminate. Qed.
+
+(* DECRPM: "permanently reset" advertises nothing, "permanently set" only Unicode core *)
+Example C07_decrpm_example :
+  mode_advertised 2027 [(2026, RpmVal 3); (2027, RpmVal 4); (2031, RpmEmpty)] = false /\
+  mode_advertised 2026 [(2026, RpmVal 3); (2027, RpmVal 4); (2031, RpmEmpty)] = false /\
+  mode_advertised 2027 [(2027, RpmVal 0); (2027, RpmVal 3)] = true.
+Proof. repeat split. Qed.
 
 (* non-vacuity: an RGB colour that is not a palette entry *)
 Example C07_example : is_rgb (rgb_color 1 0 0) = true /\ as_index (rgb_color 1 0 0) = index_color 16.
